@@ -13,3 +13,42 @@ def c01(ctx):
              "argument (several with a guard fact re-checked on every run)")
     n = cr.census_for(ctx, "C01.R1", "C01", "parsing", cr.roots_front)
     rep.floor("C01.R1", n, 90, "census sites (both profiles)")
+    progress_rules(ctx)
+
+
+def progress_rules(ctx):
+    from .. import progress
+    from .c13 import no_statement_rule
+    F, rep = ctx.F, ctx.rep
+    rep.rule("C01.R3", "PROGRESS/loops: every CFG cycle in lexer.rs and parser.rs contains a pivot call of a consuming primitive "
+             "(match_and_consume, the lexer's next / find / take_while_ref, find_word_start, parse_statement, consume) such that removing "
+             "the pivot block breaks every cycle of the component and the loop is left when the primitive yields nothing")
+    rep.rule("C01.R4", "PROGRESS/recursion: after deleting the call edges guarded by consumption (dominated by consume(), by the positive "
+             "edge of match_and_consume / expect_* / parse_identifier, or inside a closure mapped over such a result) the parser's call "
+             "graph is acyclic; no-statement kinds are consumed or rejected by every loop that re-enters statement parsing")
+    n_loops = 0
+    for fn in progress.parser_fns(F):
+        for scc, verdict in progress.loop_pivots(F, fn):
+            n_loops += 1
+            rep.analysed(fn)
+            head = min(scc)
+            key = "loop::%s#%d" % (fn.path, sorted(fn.term(b)["line"] for b in scc)[0] if False else list(sorted(scc))[0])
+            key = "loop::%s::%s" % (fn.path, "+".join(sorted({(fn.term(b)["callee"].get("name") or "?") for b in scc if fn.term(b)["k"] == "call" and "indirect" not in fn.term(b)["callee"]}))[:80])
+            ok = verdict is not None
+            rep.ob("C01.R3", key, ok, "" if ok else "a loop in %s (line %s) has no consuming pivot: it can iterate without taking a token or character from the input" % (
+                fn.path, fn.term(head)["line"]), fn.loc(fn.term(head)["line"]), how=verdict[1] if ok else "")
+    rep.floor("C01.R3", n_loops, 10, "loops in the lexer and the parser")
+    edges, cycles, n_edges, n_guarded = progress.recursion_cycles(F)
+    rep.notes["parser_call_edges"] = {"total": n_edges, "guarded_by_consumption": n_guarded}
+    rep.floor("C01.R4", n_edges, 100, "parser call edges")
+    seen = set()
+    for cyc in cycles:
+        k = "->".join(x.rsplit("::", 1)[-1] for x in cyc)
+        if k in seen:
+            continue
+        seen.add(k)
+        rep.fail("C01.R4", "recursion::" + k, "the parser can recurse %s without consuming a token in between (unbounded recursion on some input)" % k,
+                 F.fn(cyc[0]).loc() if F.fn(cyc[0]) else None)
+    rep.ob("C01.R4", "recursion::acyclic-after-removing-guarded-edges", not cycles, "" if not cycles else "%d unguarded recursion cycles" % len(seen), None,
+           how="%d of %d call edges are guarded by consumption; the rest form a DAG" % (n_guarded, n_edges))
+    no_statement_rule(ctx, "C01.R4")
